@@ -317,7 +317,10 @@ fn one_program(rng: &mut Rng, mode: &str) -> Value {
                                "eff": eff, "exp": exp, "cond": cj, "acts": aj}));
     }
     let maxc = match mode { "c01" => 1 + rng.below(2), "c03" => [0usize, 1, 2, 3, 5, 8, 17, 64][rng.below(8)], _ => 1 + rng.below(3) };
-    let mut engine = RustRuleEngine::with_config(kb, EngineConfig { max_cycles: maxc, timeout: None, enable_stats: false, debug_mode: false });
+    // the options that must not change any outcome are varied: statistics on/off, the default 30 s timeout or none
+    let engine_cfg = EngineConfig { max_cycles: maxc, timeout: if rng.chance(1, 2) { Some(std::time::Duration::from_secs(30)) } else { None },
+                                    enable_stats: rng.chance(1, 2), debug_mode: false };
+    let mut engine = RustRuleEngine::with_config(kb, engine_cfg);
 
     // ---- call history ----
     let ncalls = match mode { "c02" => 1 + rng.below(6), _ => 1 + rng.below(2) };
